@@ -379,6 +379,11 @@ func (cs *crashSim) run() {
 		case "mark":
 			if strings.HasPrefix(op.Note, "b:") {
 				executed, _ = strconv.Atoi(op.Note[2:])
+			} else if strings.HasPrefix(op.Note, "v:") {
+				// a completed SnapshotRevert always syncs
+				k, _ := strconv.Atoi(op.Note[2:])
+				durable = k
+				inRound = false
 			} else if strings.HasPrefix(op.Note, "r:") {
 				// A round that completed with syncing enabled is durable: that
 				// is the property's own definition.  (If the library forgot a
@@ -420,13 +425,64 @@ func RunC05(t TB, p *Program) *crashStats {
 	e.Dir = newCaseDir()
 	e.FS = NewFS(e.Dir)
 	e.FS.Record(true)
-	e.OnRound = func() { e.FS.Mark(fmt.Sprintf("r:%d", e.Persisted)) }
+	// all is the global timeline of reference states; offset maps the Env's
+	// local state index to it (a revert starts a new local history).
+	all := []*Node{NewNode()}
+	offset := 0
+	reverts := 0
+	e.OnRound = func() { e.FS.Mark(fmt.Sprintf("r:%d", offset+e.Persisted)) }
 	e.Open()
 	for _, op := range p.Ops {
 		switch op.Kind {
+		case "revert":
+			if !e.Drain() {
+				e.Failf("workload: persistence does not catch up: %v", e.OnErrors())
+			}
+			e.CloseColl()
+			e.FS.HarnessBegin()
+			cur, err := e.Store.Snapshot()
+			for d := 0; err == nil && cur != nil && d < op.N; d++ {
+				var prev moss.Snapshot
+				prev, err = e.Store.SnapshotPrevious(cur)
+				if prev == nil {
+					break
+				}
+				cur.Close()
+				cur = prev
+			}
+			var target *Node
+			if err == nil && cur != nil {
+				target, _ = ReadTree(cur)
+			}
+			if target != nil {
+				// from here on a crash may expose the revert target
+				all = append(all, target.Clone())
+				e.FS.Mark(fmt.Sprintf("b:%d", len(all)-1))
+				err = e.Store.SnapshotRevert(cur)
+			}
+			if cur != nil {
+				cur.Close()
+			}
+			e.FS.HarnessEnd()
+			if target != nil && err == nil {
+				reverts++
+				offset = len(all) - 1
+				e.Model = target.Clone()
+				e.States = []*Node{e.Model.Clone()}
+				e.Persisted = 0
+				e.FS.Mark(fmt.Sprintf("v:%d", offset))
+			} else if target != nil {
+				// the revert was refused: the store keeps its content, which is
+				// what the next states build on
+				all = append(all, e.Model.Clone())
+				e.FS.Mark(fmt.Sprintf("b:%d", len(all)-1))
+				offset = len(all) - 1 - (len(e.States) - 1)
+			}
+			e.reopenCollOnStore()
 		case "batch":
 			e.Exec(op.B)
-			e.FS.Mark(fmt.Sprintf("b:%d", len(e.States)-1))
+			all = append(all, e.Model.Clone())
+			e.FS.Mark(fmt.Sprintf("b:%d", len(all)-1))
 		case "mstep":
 			e.MergerStep(op.MKind)
 			e.settlePersister()
@@ -449,12 +505,15 @@ func RunC05(t TB, p *Program) *crashStats {
 		trace = trace[:1500]
 	}
 	st := &crashStats{labels: map[string]int{}, failures: map[string]string{}}
-	cs := &crashSim{t: t, p: p, trace: trace, states: e.States, noSync: p.Cfg.NoSync, extra: x,
+	cs := &crashSim{t: t, p: p, trace: trace, states: all, noSync: p.Cfg.NoSync, extra: x,
 		imgRoot: e.Dir + ".crash", seen: map[[32]byte]bool{}, st: st, mergeOp: &verifMergeOp{}}
 	os.MkdirAll(cs.imgRoot, 0700)
 	defer os.RemoveAll(cs.imgRoot)
 	cs.run()
 	st.labels["trace-ops"] = len(trace)
+	if reverts > 0 {
+		st.labels["workload-with-revert"] = 1
+	}
 	if len(st.failures) > 0 {
 		var sigs []string
 		for s := range st.failures {
